@@ -16,6 +16,13 @@ CLAIMED = {
                      "conditions of correct parsing; the scanner's transitions on arbitrary documents are not decided.",
                 note=TB + "; the grammar table transcribed in cifsa/rules/c01.py",
                 tech="constant-table reconstruction from AST stores + switch/case-label dispatch analysis on CFGs"),
+    "C02": dict(level="other", ref="5 C02",
+                text="Necessary conditions of write/re-parse agreement decided on the code's shape: magic code spelled identically in "
+                     "writer, cif_parse and parser; every emitting function of ciffile.c stores last_column after every emission on "
+                     "every success path and every length-limited primitive compares it with the 2048 limit before emitting "
+                     "(path-universal dataflow); delimiter choice has a single source. Round-trip equality is not decided.",
+                note=TB + "; ICU u_fprintf/u_fputc return conventions (count written / character written)",
+                tech="table agreement + emission/accounting typestate dataflow + who-may-call on the call graph"),
     "C05": dict(level="proof", ref="5 C05",
                 text="Path-universal transaction typestate over the CFG of every function that reaches a transaction event or a "
                      "modifying statement: depth balanced on every exit, no failure return after a successful commit, no success "
@@ -30,6 +37,20 @@ CLAIMED = {
                      "of the property; once-only delivery of packets depends on SQL row grouping at run time and is not decided.",
                 note=TB + "; SQLite transaction/savepoint semantics",
                 tech="typestate dataflow + dominance / must-pass-through queries on clang CFGs"),
+    "C11": dict(level="other", ref="5 C11",
+                text="Narrow structural claim: the dialect-selecting magic code agrees in all places where it is emitted or compared "
+                     "(incl. the common 7-character prefix), and CIF_WRONG_ENCODING / the BOM CIF_DISALLOWED_CHAR / SET_V1 sit exactly "
+                     "under their version guards. The option x leading-bytes decision table needs evaluation on data: not decided.",
+                note=TB,
+                tech="constant-table agreement + guard-edge dominance on the CFG"),
+    "C13": dict(level="other", ref="5 C13",
+                text="In CIF 1.1 mode every CIF-supplied string reaching the output stream has passed cif_validate_cif11_characters "
+                     "with CIF_OK on every path (who-may-emit closure over text-forwarding writers + per-variable must-validate "
+                     "dataflow with the mode as status variable); lists/tables/triple quotes/delimiter-containing text fields are "
+                     "refused; the validator's table is the CIF 1.1 character set and is indexed within bounds.",
+                note=TB + "; write_context_t.version is constant during a write (checked: stored only by cif_write); one named "
+                     "exemption: text of unquoted numbers",
+                tech="typestate dataflow (validated-set) + forwarder summaries + guard dominance + table agreement"),
     "C18": dict(level="other", ref="5 C18",
                 text="Exhaustive agreement of finite tables: the special-character sets of cif_analyze_string, cif_value_set_quoted and "
                      "cif_is_reserved_string equal the scanner's token-ending / token-starting classes; reserved words agree with "
